@@ -221,7 +221,17 @@ static int cif_map_set_item(cif_map_t *map, const UChar *key, cif_value_tp *valu
                         if ((value == NULL) || cif_value_clone(value, &new_value) == CIF_OK) {
                             item->key = key_norm;
                             item->key_orig = key_copy;
+/* if it is the enlargement of the bucket array that fails then the item is already in the map: take it out again */
+#undef uthash_fatal
+#define uthash_fatal(msg) do { \
+    if (map->head != item) { \
+        HASH_DEL(map->head, item); \
+    } \
+    FAIL(soft, CIF_MEMORY_ERROR); \
+} while (0)
                             HASH_ADD_KEYPTR(hh, map->head, item->key, key_bytes, item);
+#undef uthash_fatal
+#define uthash_fatal(msg) FAIL(soft, CIF_MEMORY_ERROR)
                             return CIF_OK;
                         }
 
